@@ -2,17 +2,29 @@
 use std::panic::{catch_unwind, AssertUnwindSafe};
 use std::sync::Once;
 static HOOK: Once = Once::new();
+thread_local! {
+    /// nesting depth of `catch`: panics inside are an observed outcome (silent), panics outside are
+    /// reported on stderr so the driver can show where the monitor process died
+    static DEPTH: std::cell::Cell<u32> = const { std::cell::Cell::new(0) };
+}
 /// Install a silent panic hook (panics are an *observed outcome* in these monitors).
 pub fn silence_panics() {
     HOOK.call_once(|| {
         if std::env::var_os("VERIF_PANIC_VERBOSE").is_none() {
-            std::panic::set_hook(Box::new(|_| {}));
+            std::panic::set_hook(Box::new(|info| {
+                if DEPTH.with(|d| d.get()) == 0 {
+                    eprintln!("UNCAUGHT-PANIC {}", info);
+                }
+            }));
         }
     });
 }
 /// Run `f`, returning Err(message) if it unwound.
 pub fn catch<T>(f: impl FnOnce() -> T) -> Result<T, String> {
-    match catch_unwind(AssertUnwindSafe(f)) {
+    DEPTH.with(|d| d.set(d.get() + 1));
+    let r = catch_unwind(AssertUnwindSafe(f));
+    DEPTH.with(|d| d.set(d.get().saturating_sub(1)));
+    match r {
         Ok(v) => Ok(v),
         Err(p) => {
             let msg = if let Some(s) = p.downcast_ref::<&str>() {
